@@ -142,11 +142,28 @@ def run(prog, tier) -> Result:
         if not DV(st, v).equals(DV(st, r).inv() * RF.const(1)) and not (DV(st, v) * DV(st, r)).equals(RF.const(1)):
             return ("inverted rate is not the reciprocal in the opposite direction",
                     f"{st.ufind(v.unit.uid)}->{st.ufind(v.term.uid)}: {DV(st, v)!r}")
-        if st.rnd_depth(v.ta.rf) != 1:
+        if st.rnd_depth(v.ta.rf) != st.rnd_depth(r.ta.rf) + 1:
             return ("inverted rate is not rounded exactly once",
                     f"stored amount {st.norm(v.ta.rf)!r}: the reciprocal is rounded before the constructor scales and rounds it")
         return None
     cr.run("R09.1", ER("inverted"), "inverted", one_rate, judge_inverted)
+
+    # inverting a rate that was itself obtained by inversion: computed from that (rounded) rate, like any other
+    def inverted_rate(c):
+        (r,), _ = one_rate(c)
+        from ..interp import Frame
+        I = c.m.I
+        I.frames.append(Frame(None, prog.modules["quantity.money"], None, {}))
+        try:
+            inv = I.call_function(ER("inverted"), [r], {})
+        except AbsRaise:
+            raise Infeasible
+        finally:
+            I.frames.pop()
+        if not isinstance(inv, RateV):
+            raise Infeasible        # reported by the case above
+        return [inv], {}
+    cr.run("R09.1", ER("inverted"), "inverted, of a rate obtained by inverted()", inverted_rate, judge_inverted)
 
     for name, sign in (("__mul__", 1), ("__truediv__", -1)):
         cr.run("R09.1", ER(name), f"rate {name} rate, all sharing patterns", rate_pair(None),
